@@ -361,9 +361,31 @@ def getitemScalar (mask : Bool) (indx : List Entry) : Option Result :=
 def getitem (shape : Shape) (mask : Mask) (indx : List Entry) : Option Result :=
   if shape = [] then getitemScalar (mask.bit []) indx else getitemShaped shape mask indx
 
-/-- an object with derivatives: `__getitem__` recurses with the same index (indexer.py:88-90) -/
-def getitemObj (shape : Shape) (masks : List Mask) (indx : List Entry) : Option (List Result) :=
+/-- an object with derivatives and a leading shape: `__getitem__` recurses with the same index
+    (indexer.py:88-90) -/
+def getitemShapedObj (shape : Shape) (masks : List Mask) (indx : List Entry) : Option (List Result) :=
   masks.mapM fun m => getitem shape m indx
+
+/-- a SHAPELESS object with derivatives (indexer.py:11-26): the derivatives are not indexed one by
+    one; they follow `as_size_zero()` / `as_all_masked()` / `reshape()` of the object.
+    `Qube.as_all_masked` (qube.py:2556-2570) returns early when the object itself is already fully
+    masked, so in that case the derivatives KEEP their own masks under a masked Boolean index
+    (recorded as KF-C09-2). -/
+def getitemScalarObj (mask : Bool) (dmasks : List Bool) (indx : List Entry) : Option (List Result) :=
+  match scalarLoop {} indx with
+  | none => none
+  | some s =>
+    let shp := s.before ++ s.after
+    let m := if s.sizeZero then mask else if s.masked then true else mask
+    let dm : Bool → Bool := fun d =>
+      if s.sizeZero then d else if s.masked && !mask then true else d
+    some (⟨shp, fun _ => [], .all m⟩ :: dmasks.map fun d => ⟨shp, fun _ => [], .all (dm d)⟩)
+
+/-- `__getitem__` of an object (first mask) with its derivatives (remaining masks) -/
+def getitemObj (shape : Shape) (masks : List Mask) (indx : List Entry) : Option (List Result) :=
+  match shape, masks with
+  | [], m :: ds => getitemScalarObj (m.bit []) (ds.map (·.bit [])) indx
+  | _, _ => getitemShapedObj shape masks indx
 
 /-- `QubeIterator` (iterator.py:9-31): `obj[0], obj[1], …`; a shapeless object yields itself -/
 def iterate (shape : Shape) (masks : List Mask) : List (Option (List Result)) :=
